@@ -57,7 +57,10 @@ Record cfg := mkcfg {
   trusted : list N;        (* trusted_oracle_pubkeys *)
   warn : bool;             (* the policy filter downgrades policy-chain-validated to a warning *)
   allow_deep : bool;       (* allow_deep_reorgs *)
-  prof : profile
+  prof : profile;
+  checkpoint : option (headers * N)
+                           (* the latest compiled-in checkpoint of the network (txoo::get_latest_checkpoint:
+                              Testnet and Bitcoin have one, Regtest has none): headers and height *)
 }.
 
 Record variant := mkvar { pop_early : bool; clear_on_reject : bool }.
@@ -79,13 +82,16 @@ Record proofinfo := mkproof {
 Inductive req :=
 | Add (h : hdr) (p : proofinfo)
 | Remove (prev : headers) (p : proofinfo)
-| Chunk (id : N) (first wellformed complete : bool) (mons : list N).
+| Chunk (id : N) (first wellformed complete : bool) (mons : list N)
+| Restart (mons : list N).
+    (* the signer restarts from its store (Node::restore_node); [mons]: the monitor states the
+       store holds (the block-start flag set by a chunk lives in memory only) *)
     (* BlockChunk: offset 0?, (hash, offset, bytes) consistent?, block complete after it?,
        monitor states after the chunk (on_block_start sets saw_block) *)
 
 Definition is_ext (p : proofinfo) : bool := match pty p with PExternal => true | _ => false end.
 Definition streamed (r : req) : bool :=
-  match r with Add _ p | Remove _ p => is_ext p | Chunk _ _ _ _ _ => false end.
+  match r with Add _ p | Remove _ p => is_ext p | Chunk _ _ _ _ _ | Restart _ => false end.
 
 (** * u32 arithmetic under a build profile *)
 Definition add32 (p : profile) (a b : N) : trap N :=
@@ -360,11 +366,27 @@ Definition chunk (s : tstate) (id : N) (first wf complete : bool) (mons : list N
         else (s, Abort)                             (* "got chunk for wrong block" *)
     end.
 
+(** * A restart from the store ([Node::restore_node])
+    Tip, height, remembered headers and watches come back as they were stored -- the store is
+    written after every accepted add / remove, so that is the current state -- and every decode
+    state is gone.  The one documented exception: a tracker that is still at height 0 on a
+    network with compiled-in checkpoints is fast-forwarded to the latest checkpoint (its tip
+    and height are replaced, the window is emptied). *)
+Definition restart (c : cfg) (s : tstate) (mons : list N) : tstate * result :=
+  let sl := zipw set_mon (slots s) mons in
+  match checkpoint c with
+  | Some (hd, h) =>
+      if height s =? 0 then (mkts [] hd h sl None false, Ok)
+      else (mkts (hdrs s) (tip s) (height s) sl None false, Ok)
+  | None => (mkts (hdrs s) (tip s) (height s) sl None false, Ok)
+  end.
+
 Definition step (v : variant) (c : cfg) (s : tstate) (r : req) : tstate * result :=
   match r with
   | Add h p => add v c s h p
   | Remove prev p => remove v c s prev p
   | Chunk id first wf complete mons => chunk s id first wf complete mons
+  | Restart mons => restart c s mons
   end.
 
 (** a history stops at the first panic *)
@@ -450,6 +472,13 @@ Definition accepted_ok (c : cfg) (s : tstate) (r : req) (s' : tstate) : Prop :=
         end
   | Chunk _ _ _ _ _ =>
       hdrs s' = hdrs s /\ tip s' = tip s /\ height s' = height s /\ watch_view s' = watch_view s
+  | Restart _ =>
+      (* a restart follows no block at all: nothing moves, unless the tracker never left
+         height 0 and the network has a checkpoint *)
+      watch_view s' = watch_view s /\ quiet s' /\
+      ((hdrs s' = hdrs s /\ tip s' = tip s /\ height s' = height s) \/
+       (height s = 0 /\ exists hd h, checkpoint c = Some (hd, h) /\
+                                    hdrs s' = [] /\ tip s' = hd /\ height s' = h))
   end.
 
 (** the state in which a refused request leaves the tracker: untouched; for a streamed block
